@@ -310,7 +310,7 @@ pub fn run(ctx: &Ctx, evidence: Option<&PathBuf>) -> i32 {
             }
             // StaticVarName's own order is the order of the names
             for (m, st2) in interned.iter().take(12) {
-                if st.cmp(st2) != n.cmp(m) {
+                if st.cmp(st2) != n.cmp(m) || st.partial_cmp(st2) != Some(n.cmp(m)) || (st == st2) != (n == m) {
                     c.violation("static-order", Json::obj().with("a", n.clone()).with("b", m.clone()));
                 }
             }
